@@ -35,13 +35,24 @@ class EngineMonitor:
         self.owner = {}
         self.keep = []  # keep created handlers alive so that ids stay unique
         self.other_tx = []
+        self.harness_cancelled = set()  # names of tasks the harness itself cancelled
+        self.harness_cancel_prefixes = ()
+        self.harness_cancel_at = float("inf")  # when the harness cancelled the library's own loops
         p = rig.protocol
         st = rig.spa.struct
         self._orig_get, self._orig_sget, self._orig_qs = p.get, st.get, p.queue_send
         mon = self
 
-        async def get(create_func, destination=None, retry_count=inspect.signature(self._orig_get).parameters["retry_count"].default):
-            c = mon._start("get", retry_count)
+        UNSET = object()
+
+        async def get(create_func, destination=None, retry_count=UNSET):
+            from geckolib.config import GeckoConfig
+
+            # the configured retry count of a call: what the caller passed, else the library's setting
+            explicit = retry_count is not UNSET
+            c = mon._start("get", retry_count if explicit else GeckoConfig.PROTOCOL_RETRY_COUNT)
+            if explicit and retry_count == 0:
+                mon.sh.count("calls_with_retry_count_zero")
 
             def cf():
                 h = create_func()
@@ -49,7 +60,7 @@ class EngineMonitor:
                 return h
 
             try:
-                res = await mon._orig_get(cf, destination, retry_count)
+                res = await (mon._orig_get(cf, destination, retry_count) if explicit else mon._orig_get(cf, destination))
                 c.result = res
                 return res
             except BaseException as e:
@@ -60,6 +71,8 @@ class EngineMonitor:
 
         async def sget(protocol, create_func, retry_count=10):
             c = mon._start("struct.get", retry_count)
+            if retry_count == 0:
+                mon.sh.count("calls_with_retry_count_zero")
 
             def cf():
                 h = create_func()
@@ -131,6 +144,10 @@ class EngineMonitor:
                 sh.violation("C06:raise", f"{c.engine} raised {d['type']}: {d['msg']}", dict(wit, exc=d))
                 continue
             cancelled = isinstance(c.exc, asyncio.CancelledError)
+            by_harness = c.task in self.harness_cancelled or (str(c.task).startswith(self.harness_cancel_prefixes or ("\0",)) and c.t_return >= self.harness_cancel_at - 1e-6)
+            if cancelled and not by_harness:
+                sh.violation("C06:cancelled-unasked", f"{c.engine} call ({c.kind}) ended with CancelledError although nobody cancelled its task {c.task}", wit)
+                continue
             if len(c.tx) > c.N:
                 sh.violation("C06:too-many-transmissions", f"{len(c.tx)} transmissions with retry count {c.N}", wit)
             if len(c.creates) != len(c.tx) or len(set(map(id, c.creates))) != len(c.creates) or [x[1] for x in c.tx] != c.creates:
@@ -214,7 +231,7 @@ async def level1(sh, rig, r, regime, label):
     kinds = {
         "ping": lambda: p.get(lambda: D.GeckoPingProtocolHandler.request(parms=spa.sendparms), None, 1),
         "version": lambda: p.get(lambda: D.GeckoVersionProtocolHandler.request(seq(), parms=spa.sendparms)),
-        "channel": lambda: p.get(lambda: D.GeckoGetChannelProtocolHandler.request(seq(), parms=spa.sendparms), None, r.choice([2, 3, 10])),
+        "channel": lambda: p.get(lambda: D.GeckoGetChannelProtocolHandler.request(seq(), parms=spa.sendparms), None, r.choice([0, 2, 3, 10])),
         "watercare": lambda: p.get(lambda: D.GeckoWatercareProtocolHandler.request(seq(), parms=spa.sendparms), None, r.choice([1, 4])),
         "reminders": lambda: p.get(lambda: D.GeckoRemindersProtocolHandler.request(seq(), parms=spa.sendparms), None, 3),
         "keypress": lambda: p.get(lambda: D.GeckoPackCommandProtocolHandler.keypress(p.get_and_increment_sequence_counter(True), spa.pack_type, 1, parms=spa.sendparms), None, 2),
@@ -237,9 +254,34 @@ async def level1(sh, rig, r, regime, label):
 
         stream = asyncio.ensure_future(streamer())
         sh.count("scenarios_with_unrelated_stream")
+    # the client's other loops (ping, refresh, tidy, facade update) sleep on the same shared
+    # wake-up future as a caller pausing between retries
+    bg = []
+    if r.random() < 0.6:
+        from geckolib.config import config_sleep
+
+        async def other_loop(period):
+            while True:
+                await config_sleep(period)
+
+        bg = [asyncio.ensure_future(other_loop(r.choice([0.7, 1.3, 3.1, 5.0]))) for _ in range(r.choice([1, 3]))]
+        sh.count("scenarios_with_other_sleepers")
     for i in range(ncall):
         k = r.choice(list(kinds))
         tasks.append(asyncio.ensure_future(kinds[k]()))
+        if r.random() < 0.15:
+            # the caller is cancelled by its owner (a wait_for around it, a shutdown) at some point
+            # of its life; the others must be served and complete all the same
+            victim = tasks[-1]
+            when = r.choice(["tick", "tick", 0.001, 0.05, 1.0, 4.5])
+            if when == "tick":
+                await asyncio.sleep(0)
+            else:
+                await asyncio.sleep(when)
+            if not victim.done():
+                mon.harness_cancelled.add(victim.get_name())
+                victim.cancel()
+                sh.count("callers_cancelled_by_owner")
         if r.random() < 0.5:
             await asyncio.sleep(r.choice([0, 0, 0.05, 0.3, 2.0, 7.0]))
         if r.random() < 0.1:
@@ -257,13 +299,17 @@ async def level1(sh, rig, r, regime, label):
     budget = sum((c.N if c.N else 10) for c in mon.calls) * 6.5 + ncall * 70 + 30
     done, pending = await asyncio.wait(tasks, timeout=budget)
     for t in pending:
+        mon.harness_cancelled.add(t.get_name())
         t.cancel()
     if stream is not None:
         stream.cancel()
+    for t in bg:
+        if t.done() and not t.cancelled() and t.exception() is not None:
+            sh.violation("C06:other-sleeper-raised", f"a task looping on config_sleep ended with {t.exception()!r} while callers were pausing between retries", {"history": label})
+        elif t.done():
+            sh.violation("C06:other-sleeper-raised", "a task looping on config_sleep was cancelled although nobody cancelled it", {"history": label})
+        t.cancel()
     w.net.fault = None
-    for t in done:
-        if t.exception() is not None and not isinstance(t.exception(), asyncio.CancelledError):
-            pass  # recorded through Call.exc
     mon.judge(regime, label, e0)
     mon.detach()
     sh.nontrivial(f"L1:{label}:{ncall}:{spec['p_drop']}:{close_at_end}")
@@ -337,7 +383,10 @@ async def level2(sh, rig, r, regime, label):
     blackout["on"] = False
     done, pending = await asyncio.wait(users, timeout=800) if users else (set(), set())
     for t in pending:
+        mon.harness_cancelled.add(t.get_name())
         t.cancel()
+    mon.harness_cancel_prefixes = ("SPA:", "FACADE:")
+    mon.harness_cancel_at = w.now
     rig.taskman.cancel_key_tasks("FACADE")
     rig.taskman.cancel_key_tasks("SPA")
     await asyncio.sleep(0.2)
@@ -443,6 +492,7 @@ def main(tier, seed):
     run.need(run.counters.get("calls_answered", 0) > 300 and run.counters.get("calls_failed", 0) > 50, "too few answered/failed calls")
     run.need(run.counters.get("api_calls_gate_closed", 0) > 10, "the gate was hardly ever closed at an API call")
     run.need(run.counters.get("api_calls_gate_closed_active_profile", 0) > 5, "the gate was hardly ever closed at an API call under the active timing profile")
+    run.need(run.counters.get("callers_cancelled_by_owner", 0) > 10, "too few callers cancelled by their owner")
     run.need(run.counters.get("gated_datagrams_attributed", 0) > 20, "too few gated datagrams observed")
     run.need(run.maxima.get("max_concurrent_callers", 0) >= 8, "never 8 or more concurrent callers")
     run.need(run.counters.get("transport_lost_under_callers", 0) > 3, "transport loss under callers not exercised")
